@@ -284,7 +284,14 @@ func (p *Proc) newShell(env *wire.Env) *readline.Shell {
 	}
 	sh := readline.NewShell(opts...)
 	prompt := env.Prompt
-	sh.Prompt.Primary(func() string { promptPoint(); return prompt })
+	later := env.PromptLater
+	sh.Prompt.Primary(func() string {
+		promptPoint()
+		if s := cur.Load(); later != "" && s != nil && s.calls > 1 {
+			return later
+		}
+		return prompt
+	})
 	if env.RPrompt != "" {
 		rp := env.RPrompt
 		sh.Prompt.Right(func() string { return rp })
